@@ -53,10 +53,14 @@ func maxMembers() int {
 // runWorld generates and executes one world and evaluates every oracle; only
 // failures of property prop abort the case.
 func runWorld(t *rapid.T, prop string) {
+	longInputs := false
 	unanimous := prop == "C02" && (rapid.IntRange(0, 3).Draw(t, "unanimous") == 0 || os.Getenv("VERIF_UNANIMOUS") != "")
 	gen := vnet.GenOpts{MaxMembers: maxMembers(), MaxInstances: 3, MaxPathLen: 5, AllowByz: !unanimous, AllowSilent: true, HonestQuorum: rapid.IntRange(0, 9).Draw(t, "honestquorum") > 0 || unanimous, Unanimous: unanimous, MaxExponent: 2.0}
-	if vev.Thorough() && rapid.IntRange(0, 9).Draw(t, "longchains") == 0 {
-		gen.MaxPathLen = 127
+	if rapid.IntRange(0, map[bool]int{true: 11, false: 39}[vev.Thorough()]).Draw(t, "longchains") == 0 {
+		// inputs around and beyond the maximum chain length (128 tipsets with the base): what
+		// GetProposal returns may be longer, the participant proposes its first 128 tipsets
+		gen.MinPathLen, gen.MaxPathLen = 124, 136
+		longInputs = true
 	}
 	gen.AllowDivergent = !unanimous && (prop == "C02" || prop == "C07")
 	profile := rapid.SampledFrom(vnet.Profiles).Draw(t, "profile")
@@ -69,11 +73,11 @@ func runWorld(t *rapid.T, prop string) {
 	if profile == "two-faced" {
 		// each side of the partition must prefer its own chain: honest inputs fork at the base
 		gen.TwoFaced = true
-		gen.MinPathLen = 1
+		gen.MinPathLen = max(gen.MinPathLen, 1)
 	}
 	if profile == "gate" || profile == "laggard" || profile == "hijack" || profile == "rotlag" || profile == "rules" {
 		// the gate schedule splits proposals best when the inputs themselves agree
-		gen.MinPathLen = 1
+		gen.MinPathLen = max(gen.MinPathLen, 1)
 		gen.Unanimous = rapid.Bool().Draw(t, "gateunanimous")
 	}
 	if profile == "hijack" || profile == "rotlag" {
@@ -190,6 +194,7 @@ func runWorld(t *rapid.T, prop string) {
 		fmt.Sprintf("supp-variant>0:%v", w.Stats.SuppVariants > 0),
 		fmt.Sprintf("validated-then-queued>0:%v", w.Stats.StagedReceived > 0),
 		fmt.Sprintf("participant-with-diverged-base-view:%v", len(cfg.Divergent) > 0),
+		fmt.Sprintf("inputs-around-max-chain-length:%v", longInputs),
 		fmt.Sprintf("greedy-decider:%v/realised:%v", ro.GreedyDecide, w.Stats.KillDecisions > 0),
 	}
 	if unanimous {
